@@ -333,8 +333,78 @@ def handleHE (sF pF blocksF : String) : String :=
     | .routes _, none => "bad-op"
   | _, _, _ => "bad-op"
 
+/-! op `hd`: a Caddyfile site made of nested `handle [<path>] { … }` blocks and `respond <status>`
+
+    hd <P> <nodes>       nodes = N node^N,  node = h PATH nodes | r ST      (PATH 0 = no matcher, k = path k-1)
+  answer  `hd s=<status|-> g=<group of every route, pre-order: number | ->`                       -/
+
+mutual
+partial def pNode : P Node
+  | "r" :: toks => do
+    let (st, toks) ← pNat toks
+    pure (.respond st, toks)
+  | "h" :: toks => do
+    let (p, toks) ← pNat toks
+    if p > 6 then none else
+    let (body, toks) ← pNodes toks
+    pure (.handle (if p == 0 then none else some (p - 1)) body, toks)
+  | _ => none
+partial def pNodes : P (List Node) := fun toks => do
+  let (n, toks) ← pNat toks
+  pMany pNode n toks
+end
+
+def handlePathOk : Option Nat → Option Nat → Bool
+  | some p, some q => pathLen p ≥ pathLen q && p != q
+  | some _, none => true
+  | none, _ => false
+
+/-- the body order `sortRoutes` leaves, no two handles with the same matcher, one `respond` at most, last -/
+def bodySorted : List Node → Bool
+  | [] => true
+  | [_] => true
+  | .handle p _ :: .handle q b :: rest => handlePathOk p q && bodySorted (.handle q b :: rest)
+  | .handle _ _ :: .respond st :: rest => rest.isEmpty && bodySorted (.respond st :: rest)
+  | .respond _ :: _ :: _ => false
+
+def distinctPaths (ns : List Node) : Bool :=
+  distinct (ns.filterMap fun n => match n with | .handle (some p) _ => some p | _ => none)
+
+mutual
+def nodesValid : Nat → List Node → Bool
+  | _, [] => true
+  | d, n :: ns => nodeValid d n && nodesValid d ns
+def nodeValid : Nat → Node → Bool
+  | _, .respond st => 200 ≤ st && st ≤ 599
+  | 0, .handle _ _ => false
+  | d + 1, .handle _ body => body.length ≤ 4 && bodySorted body && distinctPaths body && nodesValid d body
+end
+
+mutual
+def groupsOfRoutes : List Route → List String
+  | [] => []
+  | rt :: rs => groupsOfRoute rt ++ groupsOfRoutes rs
+def groupsOfRoute : Route → List String
+  | .mk g _ hs _ => (if g == 0 then "-" else toString (g - 1)) :: groupsOfHandlers hs
+def groupsOfHandlers : List Handler → List String
+  | [] => []
+  | .sub rs _ _ :: hs => groupsOfRoutes rs ++ groupsOfHandlers hs
+  | _ :: hs => groupsOfHandlers hs
+end
+
+def handleHD (pF nodesF : String) : String :=
+  match natTok pF, (match pNodes (nodesF.splitOn ",") with | some (ns, []) => some ns | _ => none) with
+  | some p, some ns =>
+    if p ≥ 6 || ns.length > 4 || !bodySorted ns || !distinctPaths ns || !nodesValid 3 ns then "bad-op" else
+    let rs := adaptSite ns
+    let res := serve rs false [] ⟨0, 0, p, 0, [], none, none, p, []⟩
+    "hd s=" ++ (match res.status with | none => "-" | some c => toString c) ++
+      " g=" ++ (if rs.isEmpty then "-" else ",".intercalate (groupsOfRoutes rs))
+  | _, _ => "bad-op"
+
 def handle : List String → String
   | ["he", s, p, blocks] => handleHE s p blocks
+  | ["hd", p, nodes] => handleHD p nodes
   | [routes, errs, req] => handleCase routes errs req "0"
   | [routes, errs, req, named] => if named == "0" then "bad-op" else handleCase routes errs req named
   | _ => "bad-op"
